@@ -69,11 +69,20 @@ def _want(text: str) -> linear.Linear:
 def _guarded_returns(fn: FuncInfo, env: dict[str, ast.AST], handles: dict[str, str]) -> list[tuple[Optional[str], str]]:
     """[(guard text or None, returned expression text)] for `if g: return e` chains at the top level"""
     out: list[tuple[Optional[str], str]] = []
-    for st in stmts_no_doc(fn.node.body):
-        if isinstance(st, ast.If) and len(st.body) == 1 and isinstance(st.body[0], ast.Return) and not st.orelse:
-            out.append((_canon(st.test, env, handles), _canon(st.body[0].value, env, handles) if st.body[0].value else 'None'))
+
+    def ret(r: ast.Return) -> str:
+        return _canon(r.value, env, handles) if r.value is not None else 'None'
+
+    def chain(st: ast.stmt) -> None:
+        if isinstance(st, ast.If) and len(st.body) == 1 and isinstance(st.body[0], ast.Return):
+            out.append((_canon(st.test, env, handles), ret(st.body[0])))
+            for sub in st.orelse:
+                chain(sub)
         elif isinstance(st, ast.Return):
-            out.append((None, _canon(st.value, env, handles) if st.value is not None else 'None'))
+            out.append((None, ret(st)))
+
+    for st in stmts_no_doc(fn.node.body):
+        chain(st)
     return out
 
 
